@@ -452,29 +452,42 @@ func (mw *mcastWorld) exec(f []string) {
 		mw.kern(s)
 	case "raw":
 		id := atoi(f[1])
-		fd, err := syscall.Socket(syscall.AF_INET, syscall.SOCK_DGRAM|syscall.SOCK_NONBLOCK, 0)
-		if err != nil {
-			fmt.Fprintf(w, "< fail %s\n", errClass(err))
-			return
-		}
-		var bind [4]byte
-		switch f[2] {
-		case "tx3":
-			bind = mcastIf3IP
-			if err := syscall.SetsockoptInt(fd, syscall.SOL_IP, syscall.IP_TRANSPARENT, 1); err != nil {
+		fd := -1
+		for try := 0; try < 8; try++ {
+			var err error
+			fd, err = syscall.Socket(syscall.AF_INET, syscall.SOCK_DGRAM|syscall.SOCK_NONBLOCK, 0)
+			if err != nil {
+				fmt.Fprintf(w, "< fail %s\n", errClass(err))
+				return
+			}
+			var bind [4]byte
+			switch f[2] {
+			case "tx3":
+				bind = mcastIf3IP
+				if err := syscall.SetsockoptInt(fd, syscall.SOL_IP, syscall.IP_TRANSPARENT, 1); err != nil {
+					_ = syscall.Close(fd)
+					fmt.Fprintf(w, "< fail %s\n", errClass(err))
+					return
+				}
+				_ = syscall.SetsockoptInet4Addr(fd, syscall.IPPROTO_IP, syscall.IP_MULTICAST_IF, mcastIfIP)
+			case "rxlo":
+				bind = mcastLoIP
+			case "rxif":
+				bind = mcastIfIP
+			}
+			if err := syscall.Bind(fd, &syscall.SockaddrInet4{Addr: bind}); err != nil {
 				_ = syscall.Close(fd)
 				fmt.Fprintf(w, "< fail %s\n", errClass(err))
 				return
 			}
-			_ = syscall.SetsockoptInet4Addr(fd, syscall.IPPROTO_IP, syscall.IP_MULTICAST_IF, mcastIfIP)
-		case "rxlo":
-			bind = mcastLoIP
-		case "rxif":
-			bind = mcastIfIP
-		}
-		if err := syscall.Bind(fd, &syscall.SockaddrInet4{Addr: bind}); err != nil {
+			if !mw.portClash(fd) {
+				break
+			}
 			_ = syscall.Close(fd)
-			fmt.Fprintf(w, "< fail %s\n", errClass(err))
+			fd = -1
+		}
+		if fd < 0 {
+			fmt.Fprintf(w, "< fail portclash\n")
 			return
 		}
 		s := &mcastSock{id: id, kind: "raw", form: f[2], fd: fd}
